@@ -65,7 +65,7 @@ def cases(tier):
                     add(size, chunk, iface, "GET", t, True, "absent")
                 for specs in [(fl(0, 0),), (fl(1, 3),), (fl(0, 0), fl(3, 4)), (fl(5, 4),), (fr(100),)]:
                     add(size, chunk, iface, "HEAD", specs, True, "absent")
-                    for ifr in ("etag", "date", "staleEtag", "staleDate", "garbage", "weakEtag"):
+                    for ifr in ("etag", "date", "staleEtag", "staleDate", "laterDate", "muchLaterDate", "garbage", "weakEtag"):
                         add(size, chunk, iface, "GET", specs, True, ifr)
                 add(size, chunk, iface, "GET", (), False, "etag")
     return out
@@ -95,7 +95,8 @@ def headers_of(c, path, st):
         h.append(("Range", c03.render([dict(s) for s in c["specs"]], 0)))
     etag = '"%s"' % FileResponse.generate_etag(st)
     ifr = {"absent": None, "etag": etag, "date": formatdate(st.st_mtime, usegmt=True), "staleEtag": '"0123456789abcdef"',
-           "staleDate": formatdate(st.st_mtime - 86400, usegmt=True), "garbage": "xyz", "weakEtag": "W/" + etag}[c["ifr"]]
+           "staleDate": formatdate(st.st_mtime - 86400, usegmt=True), "laterDate": formatdate(st.st_mtime + 1, usegmt=True),
+           "muchLaterDate": formatdate(st.st_mtime + 86400 * 400, usegmt=True), "garbage": "xyz", "weakEtag": "W/" + etag}[c["ifr"]]
     if ifr is not None:
         h.append(("If-Range", ifr))
     return h
